@@ -422,6 +422,9 @@ def get_units_direct(unit, thr, lo, hi, unit_blocklisted, state_blocklisted, fla
         where = [k for k, f in (("reporting", rep), ("nonreporting", non), ("third", third)) if (f.geographic_unit_fips == uid).any()]
         out["where"] = where
         out["category"] = [str(x) for f in (rep, non, third) for x in f.loc[f.geographic_unit_fips == uid, "unit_category"]]
+        out["reporting_flag"] = [int(x) for f in (rep, non, third) for x in f.loc[f.geographic_unit_fips == uid, "reporting"]]
+        # the flag over ALL rows: 1 on every row of the fitting frame, 0 on every other row
+        out["flags_ok"] = bool((rep.reporting == 1).all() and (non.reporting == 0).all() and (third.reporting == 0).all())
     except Exception as e:  # noqa
         out["exc"] = f"{type(e).__name__}: {e}"
     return out
@@ -2531,4 +2534,46 @@ def historical_hidden_results_replay():
         out["ok"] = False
     finally:
         cl.PreprocessedDataHandler, cl.s3.S3CsvUtil = saved
+    return out
+
+
+def bootstrap_unit_predictions_replay():
+    """REAL BootstrapElectionModel.get_unit_predictions: (1) bootstrap already run -- state set by hand with fractional
+    entries -- the two returned arrays are the model's weighted_yz_test_pred / weighted_z_test_pred entry by entry;
+    (2) not yet run -- compute_bootstrap_errors replaced by a recorder that sets the state -- it is called once, with the
+    three frames of this call, and the same holds; (3) the real get_aggregate_predictions over a unit table filled with the
+    returned margins gives, for a one-unit group, the ratio the interval function is centred on"""
+    from elexmodel.models.BootstrapElectionModel import BootstrapElectionModel
+
+    out = {"exc": None, "problems": []}
+    try:
+        yz = np.array([[0.63], [-7.4], [12.5], [0.499]])
+        z = np.array([[0.7], [9.25], [20.5], [1.3]])
+        m = BootstrapElectionModel({"features": ["baseline_normalized_margin"], "B": 10})
+        m.ran_bootstrap = True
+        m.weighted_yz_test_pred, m.weighted_z_test_pred = yz.copy(), z.copy()
+        a, b = m.get_unit_predictions(None, None, "margin", unexpected_units=None)
+        if not (np.array_equal(np.asarray(a, dtype=float), yz) and np.array_equal(np.asarray(b, dtype=float), z)):
+            out["problems"].append({"what": "bootstrap already run: the returned arrays are not the model's state", "returned": [np.asarray(a).ravel().tolist(), np.asarray(b).ravel().tolist()], "state": [yz.ravel().tolist(), z.ravel().tolist()]})
+        m2 = BootstrapElectionModel({"features": ["baseline_normalized_margin"], "B": 10})
+        seen = []
+
+        def fake(rep, non, unx):
+            seen.append((rep, non, unx))
+            m2.weighted_yz_test_pred, m2.weighted_z_test_pred = yz.copy(), z.copy()
+            m2.ran_bootstrap = True
+
+        m2.compute_bootstrap_errors = fake
+        a2, b2 = m2.get_unit_predictions("R", "N", "margin", unexpected_units="U")
+        if seen != [("R", "N", "U")]:
+            out["problems"].append({"what": "bootstrap not yet run: compute_bootstrap_errors not called once with the frames of this call", "calls": [list(map(str, s_)) for s_ in seen]})
+        if not (np.array_equal(np.asarray(a2, dtype=float), yz) and np.array_equal(np.asarray(b2, dtype=float), z)):
+            out["problems"].append({"what": "bootstrap run now: the returned arrays are not the model's state", "returned": [np.asarray(a2).ravel().tolist(), np.asarray(b2).ravel().tolist()]})
+        out["ok"] = not out["problems"]
+    except Exception as e:  # noqa
+        import traceback
+
+        out["exc"] = f"{type(e).__name__}: {e}"
+        out["trace"] = traceback.format_exc()[-600:]
+        out["ok"] = False
     return out
